@@ -158,6 +158,14 @@ static int op_ctx_static(void) {
     /* context functions on the static context must report illegal use */
     { int before = g_illegal; unsigned char seed[32] = {1};
       (void)secp256k1_context_randomize(copy, seed); out_int(g_illegal - before); }
+    /* cloning the static context is illegal use: one callback, NULL, and nothing allocated (c<callbacks><n|p> a<allocations>), twice */
+    { int rep; install_hooks();
+      for (rep = 0; rep < 2; rep++) {
+        int before = g_illegal; long m0 = g_malloc_count; char b[48]; secp256k1_context *nc = secp256k1_context_clone(copy);
+        snprintf(b, sizeof b, "c%d%s", g_illegal - before, nc ? "p" : "n"); out_str(b);
+        if (HAVE_ALLOC_COUNT) { snprintf(b, sizeof b, "a%ld", g_malloc_count - m0); out_str(b); } else out_str("a0");
+        if (nc) secp256k1_context_destroy(nc);
+      } }
     results_free(r, bat.n); results_free(base, bat.n); free(ill); free(ill0); free(copy); battery_free(&bat);
     secp256k1_context_destroy(fresh);
     return 1;
